@@ -65,8 +65,10 @@ def rule_dict_tables(ctx: Ctx, rule: str = "writer-reader-tables") -> None:
     for k, v in _dict_literal_keys(tm.node):
         if k not in top:
             clause_keys.add(k)
+    from .rules_exc import with_new_helpers
+
     read_top = {k for b, k in _subscript_read_keys(fd.node) if b == fd.params[0]}
-    read_clause = {k for b, k in _subscript_read_keys(fd.node) if b != fd.params[0]}
+    read_clause = {k for root in with_new_helpers(prog, fd) for b, k in _subscript_read_keys(root) if not (root is fd.node and b == fd.params[0])}
     req_top = _required_keys(val)
     req_clause = _required_keys(chk)
     for name, a, b in (
@@ -219,8 +221,17 @@ def rule_file_tags(ctx: Ctx, rule: str = "file-tags") -> None:
 
     collect(w.body, None)
     read: Dict[str, str] = {}
+    flr = Flow(r.node)
+
+    def is_type_field(e: ast.AST) -> bool:
+        if norm(e).endswith("['type']"):
+            return True
+        if isinstance(e, ast.Name):
+            return any(norm(d).endswith("['type']") for d in flr.defs.get(e.id, []))
+        return False
+
     for node in ast.walk(r.node):
-        if isinstance(node, ast.If) and isinstance(node.test, ast.Compare) and isinstance(node.test.comparators[0], ast.Constant) and norm(node.test.left).endswith("['type']"):
+        if isinstance(node, ast.If) and isinstance(node.test, ast.Compare) and isinstance(node.test.comparators[0], ast.Constant) and is_type_field(node.test.left):
             tag = node.test.comparators[0].value
             for st in node.body:
                 for c in ast.walk(st):
